@@ -169,9 +169,9 @@ def emit_states(cfg="MC_JSONMachine_cover.cfg"):
         if v[0] == "CLASSES":
             classes = v[1]
         elif v[0] == "STATE":
-            _, k, c_, x, n, w, d, o, inp, comp, succ = v
-            states.append({"k": k, "c": c_, "x": x, "n": n, "w": w, "d": d, "out": o, "inp": inp, "comp": comp,
-                           "succ": [{"b": s[0], "out": s[1], "comp": s[2]} for s in succ]})
+            _, key, k, c_, x, n, w, d, o, inp, comp, close, succ = v
+            states.append({"key": key, "k": k, "c": c_, "x": x, "n": n, "w": w, "d": d, "out": o, "inp": inp, "comp": comp,
+                           "close": close, "succ": [{"b": s[0], "out": s[1], "comp": s[2], "key": s[3]} for s in succ]})
     if classes is None or len(states) != c["distinct"]:
         raise Infra("state emission incomplete: %d states emitted, %d distinct" % (len(states), c["distinct"]))
     states.sort(key=lambda s: (len(s["inp"]), s["inp"]))
